@@ -495,6 +495,88 @@ def full_ir(g):
     return ir
 
 
+def compare_edit_compare(ctx, g):
+    """REPETITION: deep_eq is asked, then BOTH sides are edited in the same place -- each gets one new child, the two newcomers
+    differing in exactly one compared field, so that counts stay equal -- and deep_eq is asked again: the second answer depends on the
+    structures as they are now, not on anything the first comparison left behind.  Every level (IR, module, section, interval) is
+    compared both times, in both directions."""
+    import uuid as uuidlib
+    T, A = g.Edge.Type, g.SymbolicExpression.Attribute
+    U = uuidlib.UUID(int=0x5EED5EED5EED5EED5EED5EED5EED5EED)
+
+    def first(it):
+        return sorted(it, key=lambda n: n.uuid.int)[0]
+
+    def sites(ir):
+        m = first(ir.modules)
+        sec = first(m.sections)
+        bi = first(b for b in sec.byte_intervals if b.address is not None)
+        return m, sec, bi
+    def add_at(kind, ir, st, side):
+        m, sec, bi = st
+        if kind == "block.size":
+            g.CodeBlock(uuid=U, offset=20, size=1 + side, byte_interval=bi)
+        elif kind == "block.offset":
+            g.DataBlock(uuid=U, offset=20 + side, size=1, byte_interval=bi)
+        elif kind == "block.kind":
+            (g.CodeBlock if side else g.DataBlock)(uuid=U, offset=20, size=1, byte_interval=bi)
+        elif kind == "block.uuid":
+            g.DataBlock(uuid=uuidlib.UUID(int=U.int + side), offset=20, size=1, byte_interval=bi)
+        elif kind == "interval.size":
+            g.ByteInterval(uuid=U, address=512, size=4 + side, section=sec)
+        elif kind == "interval.address":
+            g.ByteInterval(uuid=U, address=512 + side, size=4, section=sec)
+        elif kind == "section.name":
+            g.Section(uuid=U, name="new%d" % side, module=m)
+        elif kind == "symbol.name":
+            g.Symbol("new%d" % side, uuid=U, module=m)
+        elif kind == "symbol.value":
+            g.Symbol("new", uuid=U, payload=7 + side, module=m)
+        elif kind == "proxy.uuid":
+            g.ProxyBlock(uuid=uuidlib.UUID(int=U.int + side), module=m)
+        elif kind == "expression.attributes":
+            bi.symbolic_expressions[28] = g.SymAddrConst(1, first(m.symbols), {A.GOT} if side else set())
+        elif kind == "edge.label":
+            blk = first(k for k in bi.blocks if isinstance(k, g.CodeBlock))
+            ir.cfg.add(g.Edge(blk, blk, g.Edge.Label(T.Call, bool(side), False)))
+        elif kind == "aux-key":
+            m.aux_data["new%d" % side] = g.AuxData(1, "uint8_t")
+        elif kind == "module.name":
+            ir.modules.append(g.Module(uuid=U, name="new%d" % side))
+    kinds = ["block.size", "block.offset", "block.kind", "block.uuid", "interval.size", "interval.address", "section.name", "symbol.name",
+             "symbol.value", "proxy.uuid", "expression.attributes", "edge.label", "aux-key", "module.name"]
+
+    def verdicts(pairs):
+        return [(nm, x.deep_eq(y), y.deep_eq(x)) for nm, x, y in pairs]
+    for kind in kinds:
+        a = full_ir(g)
+        b = copy_of(g, a)
+        ctx.case("compare-edit-compare:" + kind, True)
+        ctx.count("compare_edit_compare")
+        try:
+            # (the places are fixed BEFORE the edit: the same four pairs of objects are compared both times)
+            pairs = [("IR", a, b)] + [(nm, x, y) for nm, x, y in zip(("module", "section", "interval"), sites(a), sites(b))]
+            sa, sb = sites(a), sites(b)
+            before = verdicts(pairs)
+            add_at(kind, a, sa, 0)
+            add_at(kind, b, sb, 1)
+            after = verdicts(pairs)
+        except Exception as e:  # noqa: BLE001
+            ctx.add("oracle", "deep_eq-raised:" + kind, "compare / edit both sides (%s) / compare raised %s" % (kind, exc_name(g, e)), {"kind": kind})
+            continue
+        if any(v is not True or w is not True for _, v, w in before):
+            ctx.add("oracle", "deep_eq-wrong:save/load copy", "an IR and its save/load copy: %s" % before, {"kind": kind})
+            continue
+        # the newcomers differ: the IR, and every level that contains the place of the edit, must now differ
+        level = {"block": 3, "interval": 2, "section": 1, "symbol": 1, "proxy": 1, "expression": 3, "edge": 0, "aux-key": 1, "module": 0}[kind.split(".")[0]]
+        for i, (nm, v, w) in enumerate(after):
+            want = not (i <= level)
+            if v is not want or w is not want:
+                ctx.add("oracle", "deep_eq-wrong:" + kind, "deep_eq was asked (True), then both sides got one new child differing in %s, then it was asked again: "
+                        "%s.deep_eq gives %s / %s, expected %s" % (kind, nm, v, w, want), {"kind": kind, "level": nm})
+                break
+
+
 def copy_of(g, ir):
     return protocheck.load_bytes(g, protocheck.save_bytes(ir))
 
@@ -629,6 +711,7 @@ def run(ctx):
             ctx.case("F%d:%s" % (idx, nm), True)
             ctx.count("fixed_ir_perturbations")
     ctx.cov["perturbation_kinds_on_fixed_ir"] = len(fixed_kinds)
+    compare_edit_compare(ctx, g)
     i = 0
     while i < n:
         ir, _ = irgen.gen_ir(g, ctx.rng, cov, n_modules=ctx.rng.choice([1, 2, 3]))
